@@ -49,6 +49,7 @@ class VUnit:
         self.opaque_blocks = []  # (fn, opener line, call): E8
         self.loop_iter = {}   # (fn, n) -> ghost iterator name for a `for` loop
         self.opaque = []      # (fn, expr, call): E6
+        self.sigchecks = []   # (file, impl, fn, sig): the real signature of a function that is only DECLARED here must still read like this
         self.obligations = {}  # name -> meaning
         self.obl_item = {}    # name -> item (whole-item obligations)
         self.body = ""
@@ -106,6 +107,8 @@ class VUnit:
                 self.opaque_blocks.append((kv["fn"], kv["opener"].strip(), kv["call"]))
             elif key == "opaque":
                 self.opaque.append((kv["fn"], kv["expr"], kv["call"], kv.get("all") == "yes"))
+            elif key == "sigcheck":
+                self.sigchecks.append((kv["file"], kv.get("impl"), kv["fn"], kv["sig"]))
             elif key == "obligation":
                 head, _, meaning = rest.partition(":")
                 parts = head.split()
@@ -350,6 +353,19 @@ def compose(unit, outdir):
     diffs = []
     rcount = 0
     srcs = {}
+    # `//@sigcheck`: a function that the spec file only declares (external, trusted contract) must still have the signature the
+    # declaration was written against -- compared as text up to white space; a changed parameter or return type is a lost anchor
+    for (f, impl, name, sig) in unit.sigchecks:
+        p = os.path.join(REPO, f)
+        if not os.path.exists(p):
+            raise Undecided(f"lost anchor: {f} does not exist")
+        src0 = srcs.setdefault(f, open(p).read())
+        a0, o0, _b0 = find_fn(src0, name, impl, None)
+        real = re.sub(r"\s+", "", src0[a0:o0])
+        real = re.sub(r"^pub(\([a-z]+\))?", "", real)
+        want = re.sub(r"\s+", "", sig)
+        if real != want:
+            raise Undecided(f"lost anchor: signature of {(impl + '::') if impl else ''}{name} changed: <<{' '.join(src0[a0:o0].split())}>> (declared against <<{sig}>>)")
     for e in unit.extracts:
         f = e["file"]
         p = os.path.join(REPO, f)
